@@ -187,7 +187,7 @@ Channel: %d
 ChannelIndex (in dastard): %d
 Subframe divisions: %d
 Subframe offset: %d
-Digitized Word Size In Bytes: 2
+Digitized Word Size in Bytes: 2
 Presamples: %d
 Total Samples: %d
 Number of samples per point: %d
